@@ -377,7 +377,7 @@ impl<S: Service, K: Kind> World<S, K> {
             }
             "drop_sub" => {
                 let s = Self::u(act, "s") as u32;
-                let zombie = act["mode"].as_str() == Some("zombie");
+                let zombie = act["mode"].as_str() != Some("orderly"); // the model keeps the Samples alive
                 if let Some(se) = self.subs.get_mut(&s) {
                     if se.state != SubState::Live {
                         return out;
